@@ -72,6 +72,8 @@ def judge(prop, res, scs):
     # every scenario of the batch was run to its end (only the end-of-run slot checks are missing)
     at_exit = bool(crash) and not ended and "Deadlock detected" in (res.err or "")
     out = []
+    tainted = False     # C09: a timeout on a message-queue activity leaves dangling pointers in the kernel (open known findings):
+    #                     what the same process shows afterwards, in any scenario, is keyed ':after-timeout'
     for k, sc in enumerate(scs):
         j = Judgement()
         out.append(j)
@@ -82,7 +84,8 @@ def judge(prop, res, scs):
             j.status = "not-run"
             continue
         done = ended or at_exit or (k < last)
-        r = O.replay(logs.get(k, ""), prop, ended=done and not (crash and not at_exit and k == last))
+        r = O.replay(logs.get(k, ""), prop, ended=done and not (crash and not at_exit and k == last), tainted=tainted)
+        tainted = tainted or r.after_timeout
         j.result = r
         j.violations = [(key, what) for key, what in r.violations]
     if crash and not res.timed_out and last >= 0:
